@@ -289,3 +289,37 @@ Proof.
   - apply csame_length, csame_ref_upgrade.
   - reflexivity.
 Qed.
+
+(* begin is either silent or the detection panic of the calling actor *)
+Lemma begin_shape2 s o k a caller tmo fn :
+  silent s (begin o k a caller tmo fn s) \/
+  exists c xc F FO EVS, begin o k a caller tmo fn s = NF c F FO EVS s /\ get_actor s c = Some xc /\
+                        DdPanic s c xc F FO EVS.
+Proof.
+  unfold begin.
+  destruct (get_op s o); [left; apply silent_refl|].
+  destruct (get_actor s a) as [xa|] eqn:Hxa; [|left; apply silent_refl].
+  destruct (caller_ok s caller && (0 <? a_ext xa)) eqn:Hc; [|left; apply silent_refl].
+  apply andb_prop in Hc. destruct Hc as [Hc _].
+  set (s0 := emit (EvBegin o k a) s).
+  assert (Hs0 : silent s s0) by (apply silent_emit; [reflexivity|apply silent_refl]).
+  destruct (dd_check s k caller xa) as [|c bid|c cyc] eqn:Hdd.
+  - left. apply silent_post_inner, silent_try_send, silent_set_hop, silent_set_ops, Hs0.
+  - left. apply silent_post_inner, silent_try_send, silent_set_hop, silent_set_graph, silent_set_ops, Hs0.
+  - right. unfold dd_check in Hdd. destruct k; try discriminate. destruct caller as [c'|]; try discriminate.
+    destruct (f_dd (s_feat s)); try discriminate.
+    destruct (get_actor s c') as [xc|] eqn:Hxc; try discriminate.
+    destruct (N.eqb (a_id xc) (a_id xa) || has_path (s_graph s) (a_id xa) (a_id xc)); try discriminate.
+    injection Hdd as <- <-. cbn in Hc. rewrite Hxc in Hc. apply andb_prop in Hc. destruct Hc as [Hhook _].
+    unfold s0. rewrite (emit_NF0 c' s (EvBegin o KAsk a)), NF_emit.
+    destruct (a_pc xc) as [| | |ho hk| | |] eqn:Hpc.
+    all: try (unfold in_hook in Hhook; rewrite Hpc in Hhook; discriminate).
+    + rewrite (NF_panic_actor_plain c' _ _ _ s xc Hxc) by (intros o' k'; unfold idf; rewrite Hpc; discriminate).
+      eexists c', xc, _, _, _. split; [reflexivity|]. split; [exact Hxc|].
+      apply DdP_plain; [exact Hhook|]. intros o' k' E. unfold idf in E. rewrite Hpc in E. discriminate.
+    + rewrite (NF_panic_actor_handle c' _ _ _ s xc ho hk Hxc) by (unfold idf; exact Hpc).
+      eexists c', xc, _, _, _. split; [reflexivity|]. split; [exact Hxc|]. apply DdP_handle. exact Hpc.
+    + rewrite (NF_panic_actor_plain c' _ _ _ s xc Hxc) by (intros o' k'; unfold idf; rewrite Hpc; discriminate).
+      eexists c', xc, _, _, _. split; [reflexivity|]. split; [exact Hxc|].
+      apply DdP_plain; [exact Hhook|]. intros o' k' E. unfold idf in E. rewrite Hpc in E. discriminate.
+Qed.
